@@ -313,11 +313,27 @@ def r6_restore_path(repo: Repo, rep):
                 seen += 1
                 rep.saw(fi)
                 params = set(fi.params[1:])
-                for _ in range(3):  # names bound to (parts of) the checkpoint: `sd = checkpoint["state_dict"]`, `a, b = checkpoint[..], set()`
+                given = set(params)
+                for _ in range(3):  # names bound to (parts of) the checkpoint: `sd = checkpoint["state_dict"]`, `a, b = checkpoint[..], set()`, `for st in checkpoint[..]`
                     for n in ast.walk(fi.node):
                         if isinstance(n, ast.Assign) and any(isinstance(x, ast.Name) and x.id in params for x in ast.walk(n.value)):
                             params |= {x.id for t in n.targets for x in ast.walk(t) if isinstance(x, ast.Name) and isinstance(x.ctx, ast.Store)}
+                        if isinstance(n, (ast.For, ast.comprehension)) and any(isinstance(x, ast.Name) and x.id in params for x in ast.walk(n.iter)):
+                            params |= {x.id for x in ast.walk(n.target) if isinstance(x, ast.Name)}
                 bad = []
+                if fi.name in ("on_save_checkpoint", "on_load_checkpoint", "state_dict", "load_state_dict"):
+                    # entries of what is saved / restored are not replaced either (a new top-level key of the hook's own is no replacement)
+                    for n in ast.walk(fi.node):
+                        if isinstance(n, (ast.Assign, ast.AugAssign)):
+                            for t in (n.targets if isinstance(n, ast.Assign) else [n.target]):
+                                if isinstance(t, ast.Subscript) and isinstance(t.value, ast.Name) and t.value.id in params and t.value.id not in given:
+                                    bad.append(f"{dump(t)[:40]} = .. (an entry of the checkpoint is rewritten)")
+                                if isinstance(t, ast.Subscript) and isinstance(t.value, ast.Subscript):
+                                    root = t.value
+                                    while isinstance(root, ast.Subscript):
+                                        root = root.value
+                                    if isinstance(root, ast.Name) and root.id in params:
+                                        bad.append(f"{dump(t)[:40]} = .. (an entry of the checkpoint is rewritten)")
                 for n in ast.walk(fi.node):
                     if isinstance(n, ast.Call) and isinstance(n.func, ast.Attribute) and n.func.attr in ("pop", "popitem", "clear") and isinstance(n.func.value, ast.Name) and n.func.value.id in params:
                         bad.append(dump(n)[:60])
@@ -345,6 +361,37 @@ def r6_restore_path(repo: Repo, rep):
                 rep.violation(R, fi.site(n), fi.fq, "strict loading of checkpoints is left on", dump(n)[:60], dump(n)[:60])
     if seen == 0:
         rep.undecided(R, "src/torchphysics", "package", "classes of the solver / condition modules", "none found")
+
+
+def r8_parameters_move_only_by_the_optimizer(repo: Repo, rep):
+    R = rep.rule("R-C19-8", "outside constructors no method of a solver / condition / callback changes a registered tensor of the module in place (x.op_(..), x.data = ..): "
+                 "learnable state at step N is what the optimizer made of the restored state", floor=20,
+                 why="a hook that rescales the adaptive point weights `at the start of every training` is a no-op for fresh weights and overwrites the restored weights of a resumed run")
+    mods = [m for name, m in repo.modules.items() if name.split(".")[-1] in ("solver", "condition", "deeponet_condition", "callbacks")]
+    for m in mods:
+        for ci in m.classes.values():
+            for fi in ci.methods.values():
+                if fi.name in ("__init__",):
+                    continue
+                rep.saw(fi)
+                bad = []
+                for n in ast.walk(fi.node):
+                    if isinstance(n, ast.Call) and isinstance(n.func, ast.Attribute) and n.func.attr.endswith("_") and not n.func.attr.startswith("_") and len(n.func.attr) > 2 \
+                            and n.func.attr not in ("requires_grad_", "zero_", "share_memory_"):
+                        root = n.func.value
+                        chain = dump(root)
+                        if chain.startswith("self.") and any(k in chain for k in ("weight", "bias", "param", "layer", "module", "model")):
+                            bad.append(dump(n)[:60])
+                    if isinstance(n, ast.Assign) and any(isinstance(t, ast.Attribute) and t.attr == "data" and dump(t.value).startswith("self.") for t in n.targets):
+                        bad.append(dump(n)[:60])
+                    if isinstance(n, ast.AugAssign):  # the canonical form of x.op_(v)
+                        base = n.target
+                        while isinstance(base, ast.Subscript):
+                            base = base.value
+                        chain = dump(base)
+                        if isinstance(base, ast.Attribute) and chain.startswith("self.") and chain.count(".") >= 2 and any(k in chain for k in ("weight", "bias", "param", "layer", "module", "model")):
+                            bad.append(dump(n)[:60])
+                rep.check(R, not bad, fi.site(), fi.fq, "no in-place change of module tensors", str(bad[:2]), str(bad[:2]))
 
 
 def r7_state_dict_stays_loadable(repo: Repo, rep):
@@ -414,6 +461,7 @@ def r7_state_dict_stays_loadable(repo: Repo, rep):
 
 def run(repo: Repo, rep):
     r7_state_dict_stays_loadable(repo, rep)
+    r8_parameters_move_only_by_the_optimizer(repo, rep)
     r6_restore_path(repo, rep)
     r5_state_layout(repo, rep)
     r1_registration(repo, rep)
